@@ -209,7 +209,10 @@ def shape_specs(tier):
                     continue
                 heavy = len(text) > 600000 or name.endswith('-100000')
                 out.append({'kind': 'shape', 'name': name, 'entry': entry, 'flags': fl, 'tier': tier, 'small': len(text) < 2000, 'heavy': heavy})
-    for t in ('dir', 'devnull', 'dangling', 'loop', 'missing', 'selfinc', 'nulfile', 'emptyfile', 'notdir'):
+    longs = ['longname-%d' % n for n in (200, 255, 256, 257, 1000, 4090, 4095, 4096, 4097, 5000, 70000)] + \
+            ['tildelong-%d' % n for n in (30, 31, 32, 33, 63, 64, 255, 256, 257, 300, 1024, 5000, 70000)] + \
+            ['longdir-%d' % n for n in (255, 1024, 4090, 4096, 5000)]
+    for t in ['dir', 'devnull', 'dangling', 'loop', 'missing', 'selfinc', 'nulfile', 'emptyfile', 'notdir'] + longs:
         for entry in ('file', 'include'):
             for sp in (0, 1):
                 out.append({'kind': 'target', 'name': t, 'entry': entry, 'flags': F_COMMENTS, 'sp': sp})
@@ -258,8 +261,16 @@ def script(spec):
         L.append('init 0 %d %d' % (sid, spec['flags']))
         if spec.get('sp'):
             L.append('add_searchpath 0 %s' % hx('spd'))
-        name = {'dir': 'adir', 'devnull': 'devnull', 'dangling': 'dangling', 'loop': 'loop1', 'missing': 'nosuchfile', 'selfinc': 'selfinc', 'nulfile': 'nulfile',
-                'emptyfile': 'emptyfile', 'notdir': 'plain.conf/x'}[spec['name']]
+        if spec['name'].startswith('longname-'):
+            name = 'n' * int(spec['name'].split('-')[1])                         # a (missing) file name around PATH_MAX / NAME_MAX
+        elif spec['name'].startswith('tildelong-'):
+            name = '~' + 'u' * int(spec['name'].split('-')[1]) + '/x.conf'       # a user name around LOGIN_NAME_MAX
+        elif spec['name'].startswith('longdir-'):
+            name = 'plain.conf'
+            L.append('add_searchpath 0 %s' % hx('d' * int(spec['name'].split('-')[1])))     # a (missing) search directory with a very long name
+        else:
+            name = {'dir': 'adir', 'devnull': 'devnull', 'dangling': 'dangling', 'loop': 'loop1', 'missing': 'nosuchfile', 'selfinc': 'selfinc', 'nulfile': 'nulfile',
+                    'emptyfile': 'emptyfile', 'notdir': 'plain.conf/x'}[spec['name']]
         if spec['entry'] == 'file':
             L.append('parse_file 0 %s' % hx(name))
         else:
